@@ -209,13 +209,14 @@ theorem failed_stat_or_open_raises (remote : Bytes) (maxReq chunk statCode openC
     cap, any short reads, any failing requests — if no read raised and the last read (of positive size) returned
     nothing, the concatenation of everything read is exactly the remote file. -/
 theorem getfo_with_prefetch_normal_return_implies_local_equals_remote (file : Bytes) (maxReq : Nat) (hm : 0 < maxReq)
-    (acts : List Prefetch.Act) (hseq : ∀ a ∈ acts, Prefetch.seqAct a)
-    (hnoraise : (Prefetch.run (Prefetch.init file maxReq) acts).raised = [])
+    (bufsize : Nat) (acts : List Prefetch.Act) (hseq : ∀ a ∈ acts, Prefetch.seqAct a)
+    (hnoraise : (Prefetch.run (Prefetch.init file maxReq bufsize) acts).raised = [])
     (pre : List Prefetch.Entry) (e : Prefetch.Entry) (w : Nat)
-    (hout : (Prefetch.run (Prefetch.init file maxReq) acts).out = pre ++ [e])
+    (hout : (Prefetch.run (Prefetch.init file maxReq bufsize) acts).out = pre ++ [e])
     (hw : e.2.1 = some w) (hpos : 0 < w) (hempty : e.2.2 = []) :
-    ((Prefetch.run (Prefetch.init file maxReq) acts).out.map (·.2.2)).flatten = file := by
-  obtain ⟨hi, hs⟩ := Prefetch.run_inv_seq (Prefetch.init_inv file maxReq hm) (Prefetch.init_seq file maxReq) acts hseq
+    ((Prefetch.run (Prefetch.init file maxReq bufsize) acts).out.map (·.2.2)).flatten = file := by
+  obtain ⟨hi, hs⟩ := Prefetch.run_inv_seq (Prefetch.init_inv file maxReq hm bufsize) (Prefetch.init_rb file maxReq bufsize)
+    (Prefetch.init_seq file maxReq bufsize) acts hseq
   have hchain := (hs hnoraise).1
   have hout' := hi.base.out
   rw [Prefetch.run_file] at hout'
